@@ -987,6 +987,10 @@ impl DbInner {
 			let record_id = writer.record_id();
 			let l = writer.drain();
 
+			// The commit is planned, nothing is published yet.
+			#[cfg(pdb_verif)]
+			crate::verif::yield_point("process_commits.before_end_record");
+
 			let bytes = {
 				let bytes = self.log.end_record(l)?;
 				let mut logged_bytes = self.log_queue_wait.work.lock();
@@ -994,6 +998,10 @@ impl DbInner {
 				self.flush_worker_wait.signal();
 				bytes
 			};
+
+			// The record is visible in the log overlay, the commit overlay is not cleaned yet.
+			#[cfg(pdb_verif)]
+			crate::verif::yield_point("process_commits.after_end_record");
 
 			{
 				// Cleanup the commit overlay.
@@ -1320,6 +1328,9 @@ impl DbInner {
 		};
 
 		if let Some((record_id, cleared, bytes)) = cleared {
+			// Every table write of the record is done, its log overlay entries are still there.
+			#[cfg(pdb_verif)]
+			crate::verif::yield_point("enact_logs.before_end_read");
 			self.log.end_read(cleared, record_id);
 			{
 				if !validation_mode {
